@@ -169,8 +169,16 @@ def kindOf (id : List Nat) : Kind :=
   else if id = [83, 84, 79, 80] then .stop
   else .other
 
-def words? (l : List Nat) (j n : Nat) : Except Err (List Nat) :=
-  (List.range n).mapM fun k => word? l (j + 2 * k)
+/-- `tuple(get_word(data, k) for k in range(j, j + 2 * n, 2))` -/
+def words? (l : List Nat) (j : Nat) : Nat → Except Err (List Nat)
+  | 0 => .ok []
+  | n + 1 =>
+    match word? l j with
+    | .error e => .error e
+    | .ok w =>
+      match words? l (j + 2) n with
+      | .error e => .error e
+      | .ok ws => .ok (w :: ws)
 
 def romPulses (p : List (Nat × Nat)) : Bool :=
   p == [(3223, 2168), (1, 667), (1, 735)] || p == [(8063, 2168), (1, 667), (1, 735)]
